@@ -40,6 +40,14 @@ func runPatchBatch(dir string, pf patchFmt, in []FmtCase) (bad []int, out string
 	cases := make([]FmtCase, len(in)) // long lines are symbolic in cases: expand them
 	for i, c := range in {
 		c.L, c.R = expandLines(c.L), expandLines(c.R)
+		// GNU patch guesses "CRLF text" from carriage returns and then strips
+		// them; that heuristic is the tool's, not the formats'.  The tool is
+		// only asked about CR-free text (CR is covered by the reference appliers).
+		for _, ls := range [][]string{c.L, c.R} {
+			for j := range ls {
+				ls[j] = strings.ReplaceAll(ls[j], "\r", "^M")
+			}
+		}
 		cases[i] = c
 	}
 	os.RemoveAll(dir)
